@@ -145,13 +145,17 @@ func finishSignature(signature, signedinfo *etree.Element, hash crypto.Hash, pri
 		return err
 	}
 	// build the rest of the signature element
-	if _, ok := privKey.Public().(*ecdsa.PublicKey); ok {
-		// reformat the signature without ASN.1 structure
+	if pub, ok := privKey.Public().(*ecdsa.PublicKey); ok {
+		// reformat the signature without ASN.1 structure: two numbers, each
+		// as wide as the curve order whatever their values are
 		esig, err := x509tools.UnmarshalEcdsaSignature(sig)
 		if err != nil {
 			return err
 		}
-		sig = esig.Pack()
+		sig, err = esig.PackFixed((pub.Curve.Params().BitSize + 7) / 8)
+		if err != nil {
+			return err
+		}
 	}
 	signature.CreateElement("SignatureValue").SetText(base64.StdEncoding.EncodeToString(sig))
 	keyinfo := etree.NewElement("KeyInfo")
